@@ -138,6 +138,9 @@ impl Node {
     fn observe(&mut self) -> (String, Vec<String>, Vec<(u64, packed::GetLastStateProof)>, Vec<u64>) {
         let rec = self.nc.take();
         let outcome = if let Some((_, _, reason)) = rec.banned.first() {
+            if std::env::var("VERIF_DEBUG_BANS").is_ok() {
+                eprintln!("ban: {}", reason);
+            }
             // "InvalidNonce(432): …"
             let code = reason
                 .split('(')
@@ -367,11 +370,12 @@ fn run_history(rep: &mut Report, prop: &str, seed: u64, len: usize) -> HistoryOu
     let mut rng = Rng::new(seed);
     super::seed_client_randomness(seed);
     let replay = vec![format!("history-seed {} len {}", seed, len)];
-    let last_n = *rng.pick(&[2u64, 3, 5, 5, 100]);
+    let c05 = prop == "C05";
+    let last_n = if c05 { *rng.pick(&[1u64, 2, 3, 5, 10, 30, 100]) } else { *rng.pick(&[2u64, 3, 5, 5, 100]) };
     // ---- chains
     let mut main = SimChain::new_dummy();
     let plan = legal_plan(&mut rng, &main);
-    let n0 = rng.range(last_n + 3, 160);
+    let n0 = if c05 && rng.chance(1, 4) { rng.range(300, 1500) } else if c05 && rng.chance(1, 6) { rng.range(1, 4) } else { rng.range(last_n + 3, 160) };
     main.append_epochs(&plan, n0);
     let mut world = World {
         chains: vec![main],
@@ -419,7 +423,7 @@ fn run_history(rep: &mut Report, prop: &str, seed: u64, len: usize) -> HistoryOu
         Level(u64),
         Grow(usize, u64),
     }
-    let mut script: Vec<Forced> = if seed % 4 == 0 {
+    let mut script: Vec<Forced> = if seed % 4 == 0 && !c05 {
         // peer 1 is proved on branch a at height L; peer 2 proves branch b at L+1 (a peer can only
         // be proved when its tip is ahead of the stored one); then a finds its block L+1 - as heavy
         // as the stored tip - and peer 1 announces it (the child fast path); and once more
@@ -444,9 +448,21 @@ fn run_history(rep: &mut Report, prop: &str, seed: u64, len: usize) -> HistoryOu
         Vec::new()
     };
     let mut forced: Option<Forced>;
-    for step in 0..len {
+    let total_steps = if c05 { len + 60 } else { len };
+    let mut settled = false;
+    let mut idle_ticks = 0;
+    // C05: the refresh timer fires every 8 s, so it always fires within 8 s after an announcement
+    let mut tick_due = false;
+    // C05: a peer whose tip stands still for MESSAGE_TIMEOUT is dropped by design; the chain finds
+    // a block at least every 30 s of simulated time
+    let mut last_growth = now;
+    // a history in which a primary C05 defect showed up: its after-effects (the peer is gone, a
+    // request is never answered) are not reported on top
+    let mut tainted = false;
+    for step in 0..total_steps {
         rep.evaluations += 1;
         let mut choice = rng.below(20);
+        let settling = c05 && step >= len;
         // state-directed bias: answer outstanding requests, announce to peers without a last state
         if !outstanding.is_empty() && rng.chance(1, 2) {
             choice = 10;
@@ -464,7 +480,52 @@ fn run_history(rep: &mut Report, prop: &str, seed: u64, len: usize) -> HistoryOu
         }
         forced_peer = None;
         forced = None;
-        if !script.is_empty() {
+        // while settling the chain still finds three more blocks (a client whose peer repeats an
+        // unproved last state waits for the next block by design), then stands still
+        let settle_growth = settling && [0usize, 12, 24].contains(&(step - len));
+        let grow_now = c05 && ((!settling && now > last_growth + 30_000) || settle_growth);
+        let tick_now = c05 && !grow_now && tick_due && outstanding.is_empty();
+        if tick_now {
+            tick_due = false;
+        }
+        if settling && !tick_now {
+            // everybody announces its tip, every request is answered, until nothing is left to do
+            if !outstanding.is_empty() {
+                idle_ticks = 0;
+                choice = 10;
+            } else {
+                let stale = connected.iter().cloned().find(|p| {
+                    let tip = world.chains[*world.peer_chain.get(p).unwrap_or(&0)].tip().hash();
+                    node.env
+                        .peers
+                        .get_state(&PeerIndex::new(*p as usize))
+                        .map(|s| s.get_last_state().map(|l| l.as_ref().header().hash() != tip).unwrap_or(true))
+                        .unwrap_or(false)
+                });
+                match stale {
+                    Some(p) => {
+                        announce_queue.clear();
+                        forced_peer = Some(p);
+                        choice = 6;
+                    }
+                    None => {
+                        // proofs of new last states are requested by the refresh timer
+                        if idle_ticks >= 2 {
+                            settled = true;
+                            break;
+                        }
+                        idle_ticks += 1;
+                        choice = 19;
+                    }
+                }
+            }
+        }
+        let forced_settle = forced_peer;
+        if tick_now || grow_now {
+            // the timer / the new block first
+        } else if settling {
+            forced_peer = forced_settle;
+        } else if !script.is_empty() {
             if !outstanding.is_empty() {
                 choice = 10; // answer the outstanding proof requests first
             } else {
@@ -480,7 +541,7 @@ fn run_history(rep: &mut Report, prop: &str, seed: u64, len: usize) -> HistoryOu
                     None => {}
                 }
             }
-        } else if outstanding.is_empty() {
+        } else if outstanding.is_empty() || c05 {
             while let Some(p) = announce_queue.pop() {
                 if connected.contains(&p) {
                     forced_peer = Some(p);
@@ -492,6 +553,17 @@ fn run_history(rep: &mut Report, prop: &str, seed: u64, len: usize) -> HistoryOu
         // more forks, and peers on them, early in a history
         if forced.is_none() && script.is_empty() && world.chains.len() < 2 && step > 3 && rng.chance(1, 6) {
             choice = 5;
+        }
+        if tick_now {
+            choice = 19;
+            forced_peer = None;
+        }
+        if grow_now {
+            choice = 3;
+            forced_peer = None;
+            forced = None;
+            // the new tip is announced to everybody
+            announce_queue = connected.iter().cloned().collect();
         }
         match choice {
             // ------------------------------------------------------------ connect
@@ -505,6 +577,9 @@ fn run_history(rep: &mut Report, prop: &str, seed: u64, len: usize) -> HistoryOu
                 if let Some(Forced::Connect(fp, fc)) = forced {
                     p = fp;
                     ci = fc.min(world.chains.len() - 1);
+                }
+                if c05 {
+                    ci = world.chains.len() - 1;
                 }
                 if connected.contains(&p) {
                     continue;
@@ -539,7 +614,7 @@ fn run_history(rep: &mut Report, prop: &str, seed: u64, len: usize) -> HistoryOu
                 rep.count_op("disconnect");
             }
             // ------------------------------------------------------------ chain growth / fork
-            3 | 4 if world.chains.len() > 1 && (matches!(forced, Some(Forced::Level(_))) || rng.chance(1, 3)) => {
+            3 | 4 if !c05 && world.chains.len() > 1 && (matches!(forced, Some(Forced::Level(_))) || rng.chance(1, 3)) => {
                 // competing tips of equal total difficulty: level all chains, then (mostly) let
                 // every chain find one more block at the same time
                 let top = world.chains.iter().map(|c| c.tip_number()).max().unwrap_or(0);
@@ -566,22 +641,64 @@ fn run_history(rep: &mut Report, prop: &str, seed: u64, len: usize) -> HistoryOu
                     ci = fc.min(world.chains.len() - 1);
                     k = fk;
                 }
-                let plan = legal_plan(&mut rng, &world.chains[ci]);
-                let _ = plan;
+                if c05 {
+                    ci = world.chains.len() - 1;
+                    k = *rng.pick(&[1u64, 1, 1, 2]);
+                    last_growth = now;
+                }
+                let _ = legal_plan(&mut rng, &world.chains[ci]);
                 // keep the epoch plan of the chain: append_simple continues the current epoch rule
-                world.chains[ci].append_simple(k);
+                if c05 {
+                    world.chains[ci].append_epochs(&plan, k);
+                } else {
+                    world.chains[ci].append_simple(k);
+                }
                 now = now.max(world.chains[ci].tip().timestamp() + 5000);
                 set_now(now);
                 continue;
             }
+            5 if c05 => {
+                // the whole honest network reorganises: the new branch shares one of the
+                // client's remembered last-N headers and every peer follows it
+                if world.chains.len() >= 6 {
+                    continue;
+                }
+                let m = world.chains.len() - 1;
+                let (_, tip) = node.env.storage.get_last_state();
+                let tip_number: u64 = tip.raw().number().unpack();
+                let base = &world.chains[m];
+                let on_main = base.number_of_hash(&tip.calc_header_hash()).is_some();
+                let anchor = if on_main { tip_number } else { base.tip_number() };
+                let depth = rng.below(last_n.max(1));
+                let at = anchor.saturating_sub(depth).max(1).min(base.tip_number());
+                let mut f = base.fork(at, 77 + world.chains.len() as u64);
+                // the epochs of the new branch are those of the old one (same plan)
+                f.append_epochs(&plan, base.tip_number() - at + rng.range(1, 3));
+                now = now.max(f.tip().timestamp() + 5000);
+                set_now(now);
+                world.chains.push(f);
+                let new_idx = world.chains.len() - 1;
+                for (_, c) in world.peer_chain.iter_mut() {
+                    *c = new_idx;
+                }
+                if std::env::var("VERIF_DEBUG_BANS").is_ok() {
+                    eprintln!("network reorg: stored tip #{} on_main {} anchor {} depth {} at {} new tip {} last_n {}", tip_number, on_main, anchor, depth, at, world.chains[new_idx].tip_number(), last_n);
+                }
+                rep.count_op("network-reorg");
+                continue;
+            }
             5 => {
-                if world.chains.len() >= 3 {
+                if world.chains.len() >= 3 || std::env::var("VERIF_C05_NOFORK").is_ok() {
                     continue;
                 }
                 let base = &world.chains[0];
                 let mut depth = *rng.pick(&[0u64, 1, 2, last_n.saturating_sub(1), last_n, last_n + 1]);
                 if let Some(Forced::Fork(d)) = forced {
                     depth = d;
+                }
+                if c05 {
+                    // forks shallower than last-N only
+                    depth = rng.below(last_n.max(1));
                 }
                 let at = base.tip_number().saturating_sub(depth).max(1);
                 let mut f = base.fork(at, 77 + world.chains.len() as u64);
@@ -599,7 +716,7 @@ fn run_history(rep: &mut Report, prop: &str, seed: u64, len: usize) -> HistoryOu
                 let p = forced_peer.unwrap_or_else(|| *rng.pick(&connected.iter().cloned().collect::<Vec<_>>()));
                 let ci = *world.peer_chain.get(&p).unwrap_or(&0);
                 let chain = &world.chains[ci];
-                let variant = if forced_peer.is_some() { 11 } else { rng.below(12) };
+                let variant = if forced_peer.is_some() || c05 { 11 } else { rng.below(12) };
                 let mut packed_vh = match variant {
                     0 => chain.verifiable_header(rng.range(1, chain.tip_number())), // an older block
                     _ => chain.verifiable_header(chain.tip_number()),
@@ -682,6 +799,9 @@ fn run_history(rep: &mut Report, prop: &str, seed: u64, len: usize) -> HistoryOu
                     lines.push(format!("disconnect {}", p));
                     impls.push("ok".into());
                 }
+                if c05 {
+                    tick_due = true;
+                }
                 rep.count_op("laststate");
                 rep.count_class(&format!("laststate:{}:{}", label, outcome));
                 // ---- oracles
@@ -728,12 +848,12 @@ fn run_history(rep: &mut Report, prop: &str, seed: u64, len: usize) -> HistoryOu
                 let chain = &world.chains[ci];
                 let other = &world.chains[(ci + 1) % world.chains.len()];
                 let req = outstanding.get(&p).cloned();
-                if req.is_none() && !rng.chance(1, 8) {
+                if req.is_none() && (c05 || !rng.chance(1, 8)) {
                     continue;
                 }
                 let edit = if req.is_none() {
                     Edit::Unsolicited
-                } else if !script.is_empty() {
+                } else if !script.is_empty() || c05 {
                     Edit::Honest
                 } else {
                     rng.pick(&[
@@ -769,7 +889,24 @@ fn run_history(rep: &mut Report, prop: &str, seed: u64, len: usize) -> HistoryOu
                 });
                 let honest = match server::get_last_state_proof(chain, &base_req, &opts) {
                     Ok(h) => h,
-                    Err(_) => continue,
+                    Err(e) => {
+                        if std::env::var("VERIF_DEBUG_BANS").is_ok() {
+                            eprintln!("server refuses: {}", e);
+                        }
+                        if c05 && req.is_some() {
+                            rep.count_class("c05:server-refuses");
+                            tainted = true;
+                            let mut r = replay.clone();
+                            r.push(format!("# the honest server refuses the client's own request: {}", e));
+                            rep.violate(
+                                &format!("C05|request-refused|{}", e.split(|c: char| c.is_ascii_digit() || c == '(').next().unwrap_or("").trim().replace(' ', "-")),
+                                "the client sends a request that a node following the protocol refuses",
+                                r,
+                            );
+                            outstanding.remove(&p);
+                        }
+                        continue;
+                    }
                 };
                 let numbers = server::last_state_proof_numbers(chain, &base_req, &opts).ok().flatten();
                 let mut msg = honest.clone();
@@ -1059,6 +1196,7 @@ fn run_history(rep: &mut Report, prop: &str, seed: u64, len: usize) -> HistoryOu
                     MESSAGE_TIMEOUT + 1,
                     2 * MESSAGE_TIMEOUT,
                 ]);
+                let dt = if tick_now || settling { 1000 } else if c05 { *rng.pick(&[1000u64, 4000, 8000, 8001]) } else { dt };
                 now += dt;
                 set_now(now);
                 let before_states: Vec<(u64, Option<PeerState>)> = connected
@@ -1079,6 +1217,19 @@ fn run_history(rep: &mut Report, prop: &str, seed: u64, len: usize) -> HistoryOu
                     .collect();
                 for (q, r) in reqs {
                     outstanding.insert(q, r);
+                }
+                if c05 {
+                    // honest peers answer a GetLastState at once
+                    for s in &sent {
+                        if let Some(p) = s.strip_prefix("GLS(").and_then(|t| t.strip_suffix(')')).and_then(|t| t.parse::<u64>().ok()) {
+                            if !announce_queue.contains(&p) {
+                                announce_queue.push(p);
+                            }
+                        }
+                    }
+                    if !disc.is_empty() && !tainted {
+                        rep.violate("C05|honest-peer-disconnected", "the refresh timer disconnects a peer that answered everything in time", replay.clone());
+                    }
                 }
                 lines.push(format!("tick {} | {}", now, si.join(" ; ")));
                 impls.push(match &r {
@@ -1133,10 +1284,63 @@ fn run_history(rep: &mut Report, prop: &str, seed: u64, len: usize) -> HistoryOu
             }
         }
         if impls.last().map(|x| x.starts_with("panic")).unwrap_or(false) {
+            if c05 {
+                let what = impls.last().cloned().unwrap_or_default();
+                let mut r = replay.clone();
+                r.push(format!("# {} while handling `{}`", what, lines.last().map(|l| l.chars().take(80).collect::<String>()).unwrap_or_default()));
+                if what.contains("long-fork") || what.contains("long fork") || what.contains("deliberate") {
+                    rep.violate(
+                        "C05|long-fork-abort-among-honest-peers",
+                        "the client stops with the long-fork abort although every peer follows one chain that was reorganised by less than last-N blocks",
+                        r,
+                    );
+                } else {
+                    rep.violate("C05|abort", "the client aborts while talking to honest peers", r);
+                }
+                tainted = true;
+            }
             break;
+        }
+        if c05 {
+            let k = impls.len();
+            for j in k.saturating_sub(2)..k {
+                let out = &impls[j];
+                if out.starts_with("ban ") {
+                    let code = out.split(' ').nth(1).unwrap_or("?").to_string();
+                    let op = lines[j].split(' ').next().unwrap_or("").to_string();
+                    let mut r = replay.clone();
+                    r.push(format!("# `{}` of an honest peer answered with {}", op, out.chars().take(60).collect::<String>()));
+                    rep.violate(&format!("C05|honest-peer-banned|{}|{}", op, code), "a peer that follows the protocol is banned", r);
+                    tainted = true;
+                }
+            }
         }
         push_dump(&mut node, &mut lines, &mut impls);
         let _ = step;
+    }
+    if c05 {
+        // the stored tip is as heavy as the heaviest tip the connected peers announce
+        let best = connected
+            .iter()
+            .map(|p| {
+                let c = &world.chains[*world.peer_chain.get(p).unwrap_or(&0)];
+                c.total_difficulty(c.tip_number()).clone()
+            })
+            .max();
+        let (stored, _) = node.env.storage.get_last_state();
+        if tainted {
+            rep.count_class("c05:tainted-history");
+        } else if let Some(best) = best {
+            if !settled {
+                rep.violate("C05|not-settled", "the exchange with honest peers does not come to an end", replay.clone());
+            } else if stored < best {
+                let mut r = replay.clone();
+                r.push(format!("# stored total difficulty {} < heaviest announced {}", dec(&stored), dec(&best)));
+                rep.violate("C05|not-converged", "after the exchange with honest peers the stored tip is lighter than the heaviest announced tip", r);
+            } else {
+                rep.count_class("c05:converged");
+            }
+        }
     }
     if nontrivial {
         rep.nontrivial.insert(fnv(&format!("{}:{}", seed, len)));
@@ -1146,6 +1350,26 @@ fn run_history(rep: &mut Report, prop: &str, seed: u64, len: usize) -> HistoryOu
 }
 
 fn canon(s: &str) -> String {
+    // the reorg headers of a COPIED prove state depend on which of several equally proved peers
+    // the implementation meets first (DashMap order); the model takes the lowest id: the reorg
+    // lists of a dump are not compared
+    let s = {
+        let mut out = String::with_capacity(s.len());
+        let mut rest = s;
+        while let Some(i) = rest.find("]/[") {
+            out.push_str(&rest[..i + 1]);
+            let tail = &rest[i + 3..];
+            match tail.find(']') {
+                Some(j) => rest = &tail[j + 1..],
+                None => {
+                    rest = "";
+                }
+            }
+        }
+        out.push_str(rest);
+        out
+    };
+    let s = s.as_str();
     // outcome classes: the model distinguishes ok / recheck, the network context cannot
     let s = s.replacen("recheck sent", "pass sent", 1);
     let s = if s.starts_with("ok sent") { s.replacen("ok sent", "pass sent", 1) } else { s };
